@@ -42,19 +42,21 @@ deriving Repr, Inhabited
 structure Out where
   /-- `ok…` or `E:<class>` -/
   resp  : String
+  /-- did the operation succeed (false: an error response, nothing committed) -/
+  ok    : Bool := true
   /-- subscriptions whose waiters were woken -/
   wakes : List Id := []
   /-- pull responses: (delivery id, attempt number) in response order -/
   delivered : List (Id × Nat) := []
 deriving Repr, DecidableEq, Inhabited
 
-def Out.isOk (o : Out) : Bool := o.resp.startsWith "ok"
+def Out.isOk (o : Out) : Bool := o.ok
 
 /-- commit a transaction result, or leave the state alone on error -/
 def finish {α} (st : St) (r : Except Err (TxOut α)) (render : α → String) : St × Out :=
   match r with
   | .ok o => ({ st with db := o.db }, { resp := render o.val, wakes := o.wakes })
-  | .error e => (st, { resp := "E:" ++ e.cls })
+  | .error e => (st, { resp := "E:" ++ e.cls, ok := false })
 
 def showPull (r : PullRes) : String :=
   "ok:" ++ ",".intercalate (r.delivered.map fun (i, n) => s!"{i}#{n}") ++ s!";dl={r.numDL}"
@@ -68,12 +70,12 @@ def step (st : St) : Op → St × Out
   | .publish t tick ms =>
     match publish st.db st.now t tick ms with
     | .ok o => ({ db := o.db, now := st.now + tick * ms.length }, { resp := "ok", wakes := o.wakes })
-    | .error e => (st, { resp := "E:" ++ e.cls })
+    | .error e => (st, { resp := "E:" ++ e.cls, ok := false })
   | .pull s mx mb strict wait obs =>
     match pull st.db st.now s mx mb strict wait obs with
     | .ok (o, now') =>
       ({ db := o.db, now := now' }, { resp := showPull o.val, wakes := o.wakes, delivered := o.val.delivered })
-    | .error e => (st, { resp := "E:" ++ e.cls })
+    | .error e => (st, { resp := "E:" ++ e.cls, ok := false })
   | .ack ids => finish st (ack st.db st.now ids) fun k => s!"ok:{k}"
   | .nack ids ds fw => finish st (nack st.db st.now ids ds fw) fun (a, b) => s!"ok:{a},{b}"
   | .delay ids d => finish st (delay st.db st.now ids d) fun k => s!"ok:{k}"
